@@ -85,6 +85,7 @@ CATALOG['stack.box_generate'] = _heap_only(lambda f, s, n: scenarios.op_generate
 CATALOG['stack.try_boxed_from_iter'] = _heap_only(lambda f, s, n: scenarios.op_try_from_iter(f, s, n, name='stack.try_boxed_from_iter', boxed=True))
 CATALOG['stack.box_from_iter'] = _heap_only(lambda f, s, n: scenarios.op_try_from_iter(f, s, n, name='stack.box_from_iter', boxed=True, entry='<Box<GenericArray<T, N>> as FromIterator<T>>::from_iter'))
 CATALOG['stack.box.map'] = _heap_only(lambda f, s, n: scenarios.box_ops(f, s, n, which='map', name='stack.box.map'))
+CATALOG['iter.into_iter'] = lambda f, s, n: scenarios.iter_into_iter(f, s, n, name='iter.into_iter')
 CATALOG['iter.overrides'] = lambda f, s, n: scenarios.iter_overrides(f, s, n, name='iter.overrides')
 CATALOG['box.map'] = lambda f, s, n: scenarios.box_ops(f, s, n, which='map', name='box.map')
 CATALOG['box.fold'] = lambda f, s, n: scenarios.box_ops(f, s, n, which='fold', name='box.fold')
